@@ -140,6 +140,37 @@ def expr_source(form, e):
     raise ValueError("unknown expression form " + form)
 
 
+GETTER = "function () { return 7; }"
+SETTER = "function (v) { }"
+
+
+def descriptor_source(act, v):
+    """a fully permissive descriptor (the engine keeps no attributes; ECMA-262 defaults them to false)"""
+    if act == "data":
+        return "{value: %s, writable: true, enumerable: true, configurable: true}" % js_lit(v)
+    body = {"get": "get: " + GETTER, "set": "set: " + SETTER, "getset": "get: %s, set: %s" % (GETTER, SETTER)}[act]
+    return "{%s, enumerable: true, configurable: true}" % body
+
+
+def step_source(target, st):
+    act, n = st["act"], js_str(st["n"])
+    if act == "assign":          # on an accessor without setter the write is refused (TypeError) or ignored: both leave no data property
+        return "try { %s[%s] = %s; } catch (e) { }" % (target, n, js_lit(st["v"]))
+    if act == "delete":
+        return "delete %s[%s];" % (target, n)
+    if act not in ("data", "get", "set", "getset"):
+        raise ValueError("unknown property step " + act)
+    if st["via"] == "many":
+        return "Object.defineProperties(%s, {%s: %s});" % (target, n, descriptor_source(act, st["v"]))
+    return "Object.defineProperty(%s, %s, %s);" % (target, n, descriptor_source(act, st["v"]))
+
+
+def create_source(ev):
+    descs = ", ".join("%s: %s" % (js_str(d["n"]), descriptor_source(d["act"], d["v"])) for d in ev["descs"])
+    obj = "Object.create({inherited: 1}, {%s})" % descs
+    return "var %s = %s;" % (ev["nm"], "[" + obj + "]" if ev["wrap"] else obj)
+
+
 def call_source(form, args):
     a = [js_lit(x) for x in args]
     if form == "call":
@@ -233,6 +264,15 @@ def run_trace(case, api):
                 src = "%s.push(%d);" % (ev["nm"], ev["x"])
             else:
                 src = "%s.zk = %d;" % (ev["nm"], ev["x"])
+            r = run(lambda: ctx.eval(src))
+            ev["o"] = r["o"]
+        elif op == "defprops":
+            target = ev["nm"] if ev["path"] == "top" else ev["nm"] + "[0]"
+            src = " ".join(step_source(target, st) for st in ev["steps"])
+            r = run(lambda: ctx.eval(src))
+            ev["o"] = r["o"]
+        elif op == "evalcreate":
+            src = create_source(ev)
             r = run(lambda: ctx.eval(src))
             ev["o"] = r["o"]
         elif op == "mutret":
